@@ -112,20 +112,19 @@ fn check_fault_run(run: &Run, sc: &Scenario, fr: &FaultRun, before: &BTreeMap<St
     match check_recorded_content(&raw, &sources) {
         Ok(n) => run.count("file_entries_resolved_and_compared", n),
         Err((class, detail)) => {
-            // one family has a signature of its own: a probe for the BANDTAIL of a band that HAS a
-            // tail was answered "not found" (together with some other fault on that band), the
-            // band passed for interrupted and an older band became the basis (known finding K2)
-            let lying_tail_probe = fr.log.iter().any(|e| {
+            // one family has a signature of its own (known finding K2): some operation was
+            // answered "not found" about a file that IS there - a probe for a band's head or
+            // tail, the read of a head or of a hunk - so that a band, or the rest of one, passed
+            // for absent and an older band became the basis for paths it covers
+            let lying_not_found = fr.log.iter().any(|e| {
                 e.injected
-                    && e.verb == V::Metadata
-                    && e.path.ends_with("BANDTAIL")
+                    && matches!(e.verb, V::Metadata | V::Read)
                     && e.result == Some(Err(conserve::transport::ErrorKind::NotFound))
                     && matches!(before.get(&e.path), Some(FsItem::File(_)))
             });
-            let n_injected = fr.log.iter().filter(|e| e.injected).count();
-            if class == "entry-resolves-to-wrong-bytes" && lying_tail_probe && n_injected >= 2 {
+            if class == "entry-resolves-to-wrong-bytes" && lying_not_found {
                 run.violation(
-                    "recorded-content:stale-basis-after-tail-probe-of-complete-band-answered-not-found",
+                    "recorded-content:stale-basis-after-existing-file-reported-not-found",
                     format!("{} faults {:?}: {detail}", sc.desc, fr.log.iter().filter(|e| e.injected).map(|e| e.brief()).collect::<Vec<_>>()),
                     replay.clone(),
                 );
